@@ -259,7 +259,7 @@ def generate_label(
     macro_definitions: MacroDefinitions,
     file_info: Token,
 ) -> GenNodes:
-    return [LabelNode(node.label, resolver)]
+    return [LabelNode(node.label, resolver, file_info)]
 
 
 def generate_text(
